@@ -37,6 +37,25 @@ func (x *Exec) evalCall(call *ast.CallExpr, st *State) []*Value {
 				x.staticRecv = x.typeOf(f.X)
 				return x.callFunc(fn, recv, call, st)
 			}
+			// call through a function-typed struct field: by contract keyed "<pkg>.<Type>.<field>"
+			xt := x.typeOf(f.X)
+			if et, isPtr := derefType(xt); isPtr {
+				xt = et
+			}
+			if n, ok := types.Unalias(xt).(*types.Named); ok {
+				key := qualName(n) + "." + f.Sel.Name
+				if c := x.eng.db.C[key]; c != nil {
+					sig := x.typeOf(f).Underlying().(*types.Signature)
+					fn := types.NewFunc(token.NoPos, x.fr().pkg, f.Sel.Name, sig)
+					var args []*Value
+					for i, a := range call.Args {
+						args = append(args, x.coerce(x.eval(a, st), sig.Params().At(i).Type()))
+					}
+					recv := x.eval(f.X, st)
+					return x.applyContract(c, fn, recv, args, st, call)
+				}
+				panic(engErr("no contract for function-typed field %s (called at %s)", key, x.pos(call)))
+			}
 			panic(engErr("call through function-typed field %s not supported at %s", f.Sel.Name, x.pos(call)))
 		}
 		if fn, ok := info.Uses[f.Sel].(*types.Func); ok {
@@ -198,6 +217,12 @@ func (x *Exec) evalArgs(fn *types.Func, call *ast.CallExpr, st *State) []*Value 
 func (x *Exec) callFunc(fn *types.Func, recv *Value, call *ast.CallExpr, st *State) []*Value {
 	fn = fn.Origin()
 	key := funcKey(fn)
+	// generic functions: use the instantiated signature of this call site
+	if gs, ok := fn.Type().(*types.Signature); ok && gs.TypeParams().Len() > 0 {
+		if is, ok := x.typeOf(call.Fun).(*types.Signature); ok && is.TypeParams().Len() == 0 {
+			fn = types.NewFunc(fn.Pos(), fn.Pkg(), fn.Name(), is)
+		}
+	}
 	// interface methods declared in an embedded interface (e.g. encoding.BinaryUnmarshaler in
 	// kyber.Point): prefer a contract keyed by the static receiver type
 	if sr := x.staticRecv; sr != nil && recv != nil {
@@ -624,6 +649,9 @@ func (x *Exec) evalBuiltin(name string, call *ast.CallExpr, st *State) []*Value 
 		switch u := at.(type) {
 		case *types.Slice:
 			v := x.eval(a, st)
+			if name == "cap" {
+				return one(&Value{T: types.Typ[types.Int], Tm: SCap(v.Tm)})
+			}
 			return one(&Value{T: types.Typ[types.Int], Tm: SLen(v.Tm)})
 		case *types.Array:
 			return one(&Value{T: types.Typ[types.Int], Tm: IntLit(u.Len())})
@@ -644,11 +672,16 @@ func (x *Exec) evalBuiltin(name string, call *ast.CallExpr, st *State) []*Value 
 		case *types.Slice:
 			n := x.toInt(x.eval(call.Args[1], st))
 			x.oblige(st, "make", "len", Ge(n, IntLit(0)), call)
+			cp := n
+			if len(call.Args) > 2 {
+				cp = x.toInt(x.eval(call.Args[2], st))
+				x.oblige(st, "make", "cap", Ge(cp, n), call)
+			}
 			es := x.sortOf(u.Elem())
 			ref := x.alloc(st)
 			k, ks := x.elemKey(es, u.Elem())
 			st.hset(k, x.vc.define("h", Store(st.hget(k, ks), ref, ConstArray(ArrS(IntS, es), zeroOfSort(es)))), ref)
-			return one(&Value{T: t, Tm: MkSlice(ref, IntLit(0), n)})
+			return one(&Value{T: t, Tm: MkSliceC(ref, IntLit(0), n, cp)})
 		case *types.Map:
 			return one(&Value{T: t, Tm: x.newMap(st, u)})
 		}
@@ -726,9 +759,9 @@ func (x *Exec) copySlices(st *State, dst, src *Value, dt types.Type) *Value {
 	return &Value{T: types.Typ[types.Int], Tm: n}
 }
 
-// evalAppend: the result is modelled as a freshly allocated backing array holding
-// the old elements followed by the new ones (capacity-sharing is not modelled;
-// assumption A-APPEND).
+// evalAppend follows Go's semantics: when the capacity suffices the new elements are
+// written into the backing array of the first argument (aliasing!) and the result shares it;
+// otherwise a fresh array holding a copy is allocated (its capacity is unknown, >= the new length).
 func (x *Exec) evalAppend(call *ast.CallExpr, st *State) *Value {
 	info := x.fr().info
 	t := info.TypeOf(call.Args[0])
@@ -736,35 +769,80 @@ func (x *Exec) evalAppend(call *ast.CallExpr, st *State) *Value {
 	es := x.sortOf(sl.Elem())
 	base := x.coerce(x.eval(call.Args[0], st), t)
 	k, ks := x.elemKey(es, sl.Elem())
-	oldArr := Select(st.hget(k, ks), SArr(base.Tm))
+	ln := SLen(base.Tm)
+	// the appended elements as a function idx -> value
+	var addLen *Term
+	var elemAt func(i *Term) *Term // i relative to the first appended element
+	var fixed []*Term
+	if call.Ellipsis.IsValid() {
+		src := x.eval(call.Args[1], st)
+		var srcArr, srcOff *Term
+		if src.Tm.S == StrS {
+			srcArr, srcOff, addLen = App("strbytes", ArrS(IntS, IntS), src.Tm), IntLit(0), App("strlen", IntS, src.Tm)
+			x.vc.assume(Ge(addLen, IntLit(0)))
+		} else {
+			srcArr, srcOff, addLen = x.sliceContents(st, src.Tm, es, sl.Elem()), SOff(src.Tm), SLen(src.Tm)
+		}
+		srcArr = x.vc.define("appsrc", srcArr)
+		elemAt = func(i *Term) *Term { return mk("select", "", es, nil, srcArr, Add(srcOff, i)) }
+	} else {
+		for _, a := range call.Args[1:] {
+			fixed = append(fixed, x.coerce(x.eval(a, st), sl.Elem()).term())
+		}
+		addLen = IntLit(int64(len(fixed)))
+	}
+	newLen := Add(ln, addLen)
+	fits := x.nameBool(And(Le(newLen, SCap(base.Tm)), Not(Eq(SArr(base.Tm), IntLit(0)))))
+	m := st.hget(k, ks)
+	oldArr := Select(m, SArr(base.Tm))
+	// in-place variant
+	var inPlace *Term
+	if fixed != nil {
+		inPlace = oldArr
+		for i, v := range fixed {
+			inPlace = Store(inPlace, Add(Add(SOff(base.Tm), ln), IntLit(int64(i))), v)
+		}
+	} else {
+		inPlace = x.fresh("appinp", ArrS(IntS, es))
+		j := Var("j!", IntS)
+		lo := Add(SOff(base.Tm), ln)
+		sel := mk("select", "", es, nil, inPlace, j)
+		x.vc.assume(Forall([]*Term{j}, mk("=", "", BoolS, nil, sel,
+			Ite(And(Le(lo, j), Lt(j, Add(lo, addLen))), elemAt(Sub(j, lo)), mk("select", "", es, nil, oldArr, j))), sel))
+	}
+	// reallocating variant
 	ref := x.alloc(st)
 	na := x.fresh("app", ArrS(IntS, es))
 	j := Var("j!", IntS)
-	ln := SLen(base.Tm)
 	sel := mk("select", "", es, nil, na, j)
 	x.vc.assume(Forall([]*Term{j}, Implies(And(Le(IntLit(0), j), Lt(j, ln)),
 		mk("=", "", BoolS, nil, sel, mk("select", "", es, nil, oldArr, Add(SOff(base.Tm), j)))), sel))
-	var newLen *Term
-	if call.Ellipsis.IsValid() {
-		src := x.eval(call.Args[1], st)
-		var srcArr, srcOff, srcLen *Term
-		if src.Tm.S == StrS {
-			srcArr, srcOff, srcLen = App("strbytes", ArrS(IntS, IntS), src.Tm), IntLit(0), App("strlen", IntS, src.Tm)
-		} else {
-			srcArr, srcOff, srcLen = x.sliceContents(st, src.Tm, es, sl.Elem()), SOff(src.Tm), SLen(src.Tm)
+	if fixed != nil {
+		for i, v := range fixed {
+			x.vc.assume(Eq(Select(na, Add(ln, IntLit(int64(i)))), v))
 		}
-		x.vc.assume(Forall([]*Term{j}, Implies(And(Le(ln, j), Lt(j, Add(ln, srcLen))),
-			mk("=", "", BoolS, nil, sel, mk("select", "", es, nil, srcArr, Add(Sub(j, ln), srcOff)))), sel))
-		newLen = Add(ln, srcLen)
 	} else {
-		arr := na
-		for i, a := range call.Args[1:] {
-			v := x.coerce(x.eval(a, st), sl.Elem())
-			x.vc.assume(Eq(Select(arr, Add(ln, IntLit(int64(i)))), v.term()))
-		}
-		newLen = Add(ln, IntLit(int64(len(call.Args)-1)))
+		x.vc.assume(Forall([]*Term{j}, Implies(And(Le(ln, j), Lt(j, newLen)),
+			mk("=", "", BoolS, nil, sel, elemAt(Sub(j, ln)))), sel))
 	}
-	st.hset(k, x.vc.define("h", Store(st.hget(k, ks), ref, na)), ref)
-	x.note("append modelled as reallocation (no capacity sharing)")
-	return &Value{T: t, Tm: MkSlice(ref, IntLit(0), newLen)}
+	newCap := x.fresh("appcap", IntS)
+	x.vc.assume(Ge(newCap, newLen))
+	if fits == True {
+		st.hset(k, x.vc.define("h", Store(m, SArr(base.Tm), x.vc.define("appa", inPlace))), SArr(base.Tm))
+		return &Value{T: t, Tm: MkSliceC(SArr(base.Tm), SOff(base.Tm), newLen, SCap(base.Tm))}
+	}
+	if fits == False {
+		st.hset(k, x.vc.define("h", Store(m, ref, na)), ref)
+		return &Value{T: t, Tm: MkSliceC(ref, IntLit(0), newLen, newCap)}
+	}
+	hIn := Store(m, SArr(base.Tm), x.vc.define("appa", inPlace))
+	hRe := Store(m, ref, na)
+	st.hset(k, x.vc.define("h", Ite(fits, hIn, hRe)), nil)
+	// record the precise write set for loop frames: the old array (maybe) and the fresh one
+	for w := st.wlog; w != nil; w = w.parent {
+		w.heap = w.heap[:len(w.heap)-1]
+		w.heap = append(w.heap, heapWrite{k, SArr(base.Tm), And(st.guard, fits)}, heapWrite{k, ref, And(st.guard, Not(fits))})
+	}
+	res := MkSliceC(Ite(fits, SArr(base.Tm), ref), Ite(fits, SOff(base.Tm), IntLit(0)), newLen, Ite(fits, SCap(base.Tm), newCap))
+	return &Value{T: t, Tm: x.vc.define("appres", res)}
 }
